@@ -266,6 +266,37 @@ MODELLED = {
     ("comm.py", "CommHandler.channels_default_cfg"): {},
     ("comm.py", "CommHandler._ch_divider_default"): {},
     ("comm.py", "CommHandler._channels_init"): {},
+    ("comm.py", "CommHandler._devinfo_get"): {2: "chinfo_retries"},
+    ("comm.py", "CommHandler._start"): {0: "connect_timeout"},
+    ("comm.py", "CommHandler._stop"): {},
+    ("comm.py", "CommHandler._drop_all_frames"): {},
+    ("comm.py", "CommHandler._drop_all"): {},
+    ("comm.py", "CommHandler._get_frame"): {},
+    ("comm.py", "CommHandler._get_stream_frame"): {},
+    ("comm.py", "CommHandler._nxslib_cmninfo"): {},
+    ("comm.py", "CommHandler._nxslib_chinfo"): {},
+    ("comm.py", "CommHandler.connect"): {},
+    ("comm.py", "CommHandler.disconnect"): {},
+    ("comm.py", "CommHandler.stream_start"): {},
+    ("comm.py", "CommHandler.stream_stop"): {},
+    ("comm.py", "CommHandler.stream_data"): {},
+    ("nxscope.py", "NxscopeHandler.__init__"): {},
+    ("nxscope.py", "NxscopeHandler.connect"): {},
+    ("nxscope.py", "NxscopeHandler.disconnect"): {},
+    ("nxscope.py", "NxscopeHandler.stream_start"): {},
+    ("nxscope.py", "NxscopeHandler.stream_stop"): {},
+    ("nxscope.py", "NxscopeHandler._stream_thread"): {},
+    ("nxscope.py", "NxscopeHandler._stream_start"): {},
+    ("nxscope.py", "NxscopeHandler._stream_stop"): {},
+    ("nxscope.py", "NxscopeHandler.stream_sub"): {},
+    ("nxscope.py", "NxscopeHandler.stream_unsub"): {},
+    ("nxscope.py", "NxscopeHandler.channels_write"): {},
+    ("nxscope.py", "NxscopeHandler.ch_enable"): {},
+    ("nxscope.py", "NxscopeHandler.ch_disable"): {},
+    ("nxscope.py", "NxscopeHandler.ch_disable_all"): {},
+    ("nxscope.py", "NxscopeHandler.ch_divider"): {},
+    ("nxscope.py", "NxscopeHandler.channels_default_cfg"): {},
+    ("nxscope.py", "NxscopeHandler.dev_channel_get"): {},
     ("thread.py", "ThreadCommon.__init__"): {},
     ("thread.py", "ThreadCommon._stop_is_set"): {},
     ("thread.py", "ThreadCommon._thread_loop"): {},
@@ -289,6 +320,11 @@ DEPENDS = {
     "C01": ["SerialFrame."],
     "C02": ["SerialFrame.", "ParseRecv.recv_handle", "ParseRecv._recv_cb"],
     "C13": ["ThreadCommon."],
+    "C10": ["CommHandler._devinfo_get", "CommHandler._start", "CommHandler._stop", "CommHandler._drop_all",
+            "CommHandler._get_frame", "CommHandler._nxslib_c", "CommHandler.connect", "CommHandler.disconnect",
+            "CommHandler._read_hdr", "CommHandler._read_frame", "CommHandler._recv_thread", "ThreadCommon."],
+    "C09": ["NxscopeHandler.", "CommHandler._start", "CommHandler._stop", "CommHandler.connect", "CommHandler.disconnect",
+            "CommHandler.stream_", "CommHandler._devinfo_get", "ThreadCommon."],
     "C03": ["CommHandler._read_hdr", "CommHandler._read_frame", "CommHandler._recv_thread", "SerialFrame."],
     "C07": ["CommHandler._nxslib_channels", "CommHandler._channel_", "CommHandler._get_ack", "CommHandler.channels_",
             "CommHandler.ch_", "CommHandler._ch_divider_default", "CommHandler._channels_init"],
@@ -616,8 +652,10 @@ def emit_types(mods, c, status):
 
 
 def emit_misc(mods, c, status):
-    out = [HEADER % "src/nxslib/intf/iintf.py, dev.py"]
+    out = [HEADER % "src/nxslib/intf/iintf.py, dev.py, comm.py"]
     out.append(coq_const("align_pad_byte", c["align_pad_byte"]))
+    out.append(coq_const("chinfo_retries", c["chinfo_retries"]))
+    out.append(coq_const("connect_timeout", c["connect_timeout"]))
     for nm in ("mask_dtype", "mask_critical", "mask_res", "chan_rw_a", "chan_rw_b"):
         out.append(coq_const(nm, c[nm]))
     md = mods.get("dev.py") or Module("dev.py")
